@@ -16,7 +16,7 @@ EXPLAINED = {
 
 class C02(Property):
     id = "C02"
-    lean_module = "RosuModel.Props.C02All"   # imports Props/C02Slider.lean, Props/C02Timing.lean and Props/C02Codec.lean (which import Props/C02.lean); all in namespace Rosu.C02
+    lean_module = "RosuModel.Props.C02All"   # imports Props/C02Slider.lean, Props/C02Timing.lean, Props/C02Codec.lean (which import Props/C02.lean) and Props/C02File.lean; all in namespace Rosu.C02
     namespace = "Rosu.C02"
     design_ref = "5.2"
     required_theorems = ["trim_cons_space", "kvSplit_kvLine", "kv_line_roundtrip", "int_display_parse", "int_display_clean",
@@ -31,7 +31,8 @@ class C02(Property):
                          "parseDecimal_renderDecimal", "roundRat_of_inInterval", "roundRat_spec", "roundRat_eq_iff", "shortestDigits_inInterval",
                          "codecLaws_float", "codecLaws_float32", "editor_block_roundtrip_ieee", "difficulty_block_roundtrip_ieee",
                          "events_block_roundtrip_ieee", "printBits_intBits_f64", "printBits_of_int_value", "intPrintLaw_float",
-                         "general_block_roundtrip_ieee"]
+                         "general_block_roundtrip_ieee",
+                         "roundtrip_rep_partial", "roundtrip_rep_counts", "toyMap_timeline_hyps"]
     partial_theorems = {
         "editor_block_roundtrip / difficulty_block_roundtrip / general_block_roundtrip / events_block_roundtrip / records_roundtrip":
             "law-dependent: proved for every number codec satisfying CodecLaws (parse(print x) = x on the representable values; printed numbers are non-empty and made of "
@@ -98,9 +99,24 @@ class C02(Property):
             "through encode, UTF-8 bytes, reader, framing, Beatmap decoder and finalisation. NOT covered: IEEE doubles (the laws fail: 100/(100/v) may be off by an ulp, values closer than "
             "2.2e-16 exist below 2.0, inf−inf is NaN) — that is the ≤4 ulp slider-velocity drift the `rt` oracle measures; sample points (not part of the preserved view); the difficulty-"
             "point velocity in taiko/mania and the scroll speed elsewhere (the format carries one of the two)",
-        "roundtrip": "NOT a theorem as a whole (only `def roundtrip_statement : Prop`, `def hitobjects_roundtrip_statement : Prop`): that every object of a DECODED map is representable in the sense of "
-            "RepObject (outside F17/F18/F20), the map-level processing after the lines (velocity, sample defaults, forced new combos), the timing round trip for IEEE doubles, and therefore the "
-            "property as a whole. These are evaluated on the implementation by the `rt` oracle "
+        "roundtrip_rep_partial / roundtrip_rep_counts":
+            "the three lines of proof composed (Props/C02File.lean) into ONE statement about ONE decode of encode m, for maps satisfying RepMap (Lemmas/RepMap.lean = RtFile.RepRecords + "
+            "RtTiming.RepTimingMap + every hit object SliderRt.RepObject) under MapLaws (CodecLaws for both float types, IntPrintLaw, SliderRt.CoordLaws) and, for the timing part, the "
+            "exact-arithmetic laws EpsLaws / GroupLaws and TimelineHyps of the map's control points — all satisfiable together: C04.toyMap (toy codec; mania, two timing points, inherited "
+            "lines with scroll speeds 2 and 4 and kiai, a circle, a slider with a two-segment path, a spinner, a hold note). No shape assumption on the list blocks is left. Conclusion: "
+            "reading the UTF-8 bytes of the text back succeeds; the decoder state has the map's record fields (preserved view) and, BEFORE map-level processing, hit objects that are position "
+            "by position what the line format carries of the map's (SliderRt.ObjsBack: same count and order; start times; circle: position, combo offset, new_combo or-ed with the forcing "
+            "rule `first object or after a spinner`; slider: position, combo data, control points, repeat count, the written length as stored, node sample lists, velocity 1; spinner: "
+            "duration, new_combo, centre; hold: column, duration; samples as convert_sound_type rebuilds them); and whenever finalisation succeeds the re-decoded Beatmap has the map's "
+            "format version, general (preserved view), editor, metadata (preserved view), difficulty, events, colours (alpha 255), the map's timing points and at every time its effective "
+            "slider velocity (scroll speed in taiko/mania) and kiai flag, and hit objects equal to finalizeObjects ∘ postProcessBreaks ∘ sortByStartTime of exactly those pushed objects with "
+            "the map's mode, slider multiplier and breaks and the re-decoded control points. PARTIAL: what is missing for the full property is listed under `roundtrip`",
+        "roundtrip": "NOT a theorem as a whole (only `def roundtrip_statement`, `def hitobjects_roundtrip_statement`, `def roundtrip_rep_statement : Prop`). Still missing after roundtrip_rep_partial: "
+            "(a) the map-level processing of the re-decoded objects against the original map's objects — slider velocity computed from the re-decoded control points (their effective "
+            "timeline is equal by roundtrip_rep_partial, but finalizeObjects is not yet shown to read them only through it), sample defaults from the re-decoded sample points (outside the "
+            "preserved view), forced new combos after breaks, the stable sort of an already chronological list; (b) that a DECODED map satisfies RepMap — false in general: F17 (typed point "
+            "repeated at a segment start), F18 (node sample file names), F20 (computed length above the limit), sample points collected at non-finite computed times; (c) the timing round "
+            "trip for IEEE doubles (EpsLaws / GroupLaws fail there: the ≤4 ulp slider-velocity drift). These are evaluated on the implementation by the `rt` oracle "
             "(preserved view compared field by field, floats by bits, curves included, ≤4 ulp only for slider velocity) and on the model by the three-way `rt` correspondence "
             "(M1, text, M2 all identical between model and code)",
     }
@@ -116,11 +132,15 @@ class C02(Property):
                   "arithmetic (timing_rt, timing_roundtrip_file: same timing points, same effective slider velocity / scroll speed and kiai at every time — encoder group loop and redundancy "
                   "suppression against the decoder's pending groups, precedence and redundancy checks). Everything that prints floats is proved for every "
                   "lawful number codec; the model's own IEEE codec is proved lawful at the bit level (parse(print b) = b for every non-NaN f32/f64 pattern; printed numbers clean and non-empty) "
-                  "and the Float/Float32 instances are lawful given one bit-cast hypothesis about Lean's opaque runtime floats. The per-map assembly of the object lines (that a decoded map's objects are representable) is not a theorem. Model of decoder and encoder compared three ways on every case (decoded map, encoded text character for character, re-decoded map); "
+                  "and the Float/Float32 instances are lawful given one bit-cast hypothesis about Lean's opaque runtime floats. "
+                  "File level, all parts in one statement about one decode (roundtrip_rep_partial): for a map satisfying RepMap, under the codec laws and exact timing arithmetic, the "
+                  "re-decoded map has the map's record fields, timing points and effective velocity / kiai timelines, and its hit objects are the map-level processing of objects that are, line by line, "
+                  "what the format carries of the map's objects (kinds, times, positions, combo data, control points, repeat counts, lengths). Not theorems: the map-level processing itself, and that a "
+                  "decoded map satisfies RepMap (false in general: F17, F18, F20). Model of decoder and encoder compared three ways on every case (decoded map, encoded text character for character, re-decoded map); "
                   "the property itself — preserved(decode(encode(decode x))) = preserved(decode x) for chronological inputs — is evaluated on the real code over the structured generator "
                   "(all sections, four modes, versions 3..128, all object kinds, multi-segment paths, same-time timing groups, hostile-but-accepted numerics), field-level mutations of the "
                   "bundled maps and the bundled maps themselves.")
-    technique = "Lean 4 proof (line, section and record-file level round trips, timing-point lines; law-dependent where floats are printed) + three-way correspondence + implementation-level round-trip oracle"
+    technique = "Lean 4 proof (line, section, block and file level round trips incl. the composed file-level statement for representable maps; law-dependent where floats are printed) + three-way correspondence + implementation-level round-trip oracle"
     trusted_base = [
         "Lean 4.33.0 kernel; axioms ⊆ {propext, Classical.choice, Quot.sound} per #print axioms",
         "hand-written decode + encode models tied to /repo by the `rt` differential of this run",
